@@ -345,3 +345,44 @@ def canon(e) -> str:
 
 def same(e1, e2) -> bool:
     return canon(e1) == canon(e2)
+
+
+# ----------------------------------------------------------------- settings factories
+
+def settings_wiring(ctx: Ctx, rule: str, module_name: str, min_sites=1):
+    """Every module-level function that returns `NT(a0, a1, ...)` / `NT(f=a, ...)` for a namedtuple NT of the same module and whose
+    arguments are its own parameters must put each parameter into the field of the same name (the fields are read by
+    name everywhere else: a swapped pair silently exchanges two settings)."""
+    from optilint.model import namedtuple_fields
+    mod = ctx.need_module(module_name)
+    nts = {}
+    for st in mod.tree.body:
+        if isinstance(st, ast.Assign) and len(st.targets) == 1 and isinstance(st.targets[0], ast.Name) and isinstance(st.value, ast.Call):
+            f = namedtuple_fields(st.value) if (dotted(st.value.func) or "").split(".")[-1] == "namedtuple" else None
+            if f:
+                nts[st.targets[0].id] = list(f.fields)
+    n = 0
+    for sc in mod.scope.children:
+        if sc.kind != "function":
+            continue
+        rets = sc.returns()
+        if len(rets) != 1 or not isinstance(rets[0], ast.Call) or not isinstance(rets[0].func, ast.Name) or rets[0].func.id not in nts:
+            continue
+        call = rets[0]
+        fields = nts[call.func.id]
+        params = set(sc.params()) | set(sc.kwonly())
+        pairs = [(fields[i] if i < len(fields) else None, a) for i, a in enumerate(call.args)] + [(k.arg, k.value) for k in call.keywords if k.arg]
+        if not any(isinstance(a, ast.Name) and a.id in params and a.id in fields for (_, a) in pairs):
+            continue
+        n += 1
+        bad = [(fld, a.id) for (fld, a) in pairs if isinstance(a, ast.Name) and a.id in params and a.id in fields and a.id != fld]
+        nargs = len(call.args) + len([k for k in call.keywords if k.arg])
+        ok = not bad and nargs == len(fields)
+        ctx.decide(rule, ok, sc, call, construct=f"{sc.name}->{call.func.id}:parameters-to-same-named-fields",
+                   detail=f"{nargs} arguments fill {len(fields)} fields by name",
+                   bad_detail=f"{module_name.split('.')[-1]}.{sc.name} builds {call.func.id} with " +
+                              (", ".join(f"parameter `{a}` in field `{f}`" for f, a in bad) if bad else f"{nargs} arguments for {len(fields)} fields") +
+                              ": settings are exchanged silently (all readers use the field names)")
+    if n < min_sites:
+        raise Incomplete(f"{module_name}: {n} settings factories found ({min_sites} expected)")
+    return n
